@@ -83,8 +83,8 @@ DEFAULT_FIELDS = {
 
 
 @st.composite
-def table(draw, min_rows=1, max_rows=12, fields=None, permute=True, unique_ids=True, bulk_max=0,
-          id_strategy=None, euler_strategy=None, index_kinds=("default", "default", "reversed", "offset", "strided", "rotated")):
+def table(draw, min_rows=1, max_rows=12, fields=None, permute=True, unique_ids=True, bulk_max=0, bulk_large=None,
+          id_strategy=None, euler_strategy=None, index_kinds=("default", "default", "reversed", "offset", "strided", "rotated", "repeated")):
     """A particle table as data: {"cols": column order, "rows": [[20 values canonical order]], "bulk": {...}|None}."""
     f = dict(DEFAULT_FIELDS)
     if fields:
@@ -121,6 +121,8 @@ def table(draw, min_rows=1, max_rows=12, fields=None, permute=True, unique_ids=T
     bulk = None
     if bulk_max and draw(st.integers(0, 3)) == 0:
         bulk = {"seed": draw(st.integers(0, 2**31 - 1)), "n": draw(st.integers(1, bulk_max))}
+        if bulk_large and draw(st.integers(0, 4)) == 0:  # realistic list sizes: anything done in blocks / batches / chunks
+            bulk["n"] = draw(st.integers(bulk_large[0], bulk_large[1]))
     index = "default"
     if index_kinds:
         index = draw(st.sampled_from(index_kinds))
@@ -173,6 +175,9 @@ def table_df(t, bulk_fn=default_bulk):
         df.index = list(range(0, 3 * n, 3))
     elif kind == "rotated":
         df.index = [(i + 1) % n for i in range(n)] if n else []
+    elif kind == "repeated":  # labels as left behind by pd.concat of two lists without ignore_index: 0..k-1, 0..n-k-1
+        k = (n + 1) // 2
+        df.index = list(range(k)) + list(range(n - k))
     return df[list(t["cols"])].copy()
 
 
